@@ -1,5 +1,6 @@
 """Rules over incarnation_db.rs and the validate() scan: read resolution, read-set completeness,
 version recording, publication of writes (C01, C07-B6, C08, C09)."""
+import os
 from ru import *
 
 IDB = "incarnation_db::IncarnationDb<'a, DB>"
@@ -185,13 +186,27 @@ def D3_storage_table(ctx):
         slot, reset = taken['Storage'], taken['StorageReset']
         # order atom: is_none_or(reset_txid, |r| slot_txid >= r)
         order = None
+        direct_rel = None
+        direct_rels = []
         for a in p.events:
             if a.kind == 'atom' and a.d['term'][0] == 'call' and callee_matches(a.d['term'][1], ('::is_none_or', '::map_or', '::is_some_and')):
                 order = a
+                direct_rel = None
+                direct_rels = []
             if a.kind == 'atom':
                 n = norm_cmp(a)
-                if n and slot is not None and reset is not None and mentions(n[1], slot) and mentions(n[2], reset):
-                    order = a
+                if n and slot is not None and reset is not None:
+                    ss, rs = strip(slot), strip(reset)
+                    rel = None
+                    if mentions(n[1], ss) and mentions(n[2], rs) and not mentions(n[1], rs) and not mentions(n[2], ss):
+                        rel = n[0]
+                    elif mentions(n[1], rs) and mentions(n[2], ss) and not mentions(n[1], ss) and not mentions(n[2], rs):
+                        rel = CMP_FLIP[n[0]]
+                    if rel is not None:
+                        # the relation that HOLDS between slot txid and reset txid on this path
+                        order = a
+                        direct_rels.append(rel)
+                        direct_rel = '&'.join(direct_rels)
         kind = None
         if ret[0] == 'agg' and ret[2] == 'Ok':
             v = ret[3][0]
@@ -201,13 +216,18 @@ def D3_storage_table(ctx):
                 kind = 'zero'
         elif ret[0] == 'call' and callee_matches(ret[1], '::storage_ref'):
             kind = 'backing'
-        key = (slot is not None, reset is not None, order.d['outcome'] if order is not None else None, kind)
+        key = (slot is not None, reset is not None, (direct_rel or order.d['outcome']) if order is not None else None, kind)
         seen.add(key)
         if slot is not None and reset is None:
             ok = kind == 'slot'
         elif slot is not None and reset is not None:
             if order is None:
                 ok = False
+            elif direct_rel is not None:
+                # an explicit comparison of the two writer ids: only `>=` / its negation `<` decide
+                implies_ge = any(r in ('Ge', 'Gt', 'Eq') for r in direct_rels)
+                implies_lt = 'Lt' in direct_rels or ('Le' in direct_rels and 'Ne' in direct_rels)
+                ok = (kind == 'slot' and implies_ge) or (kind == 'zero' and implies_lt)
             else:
                 newer = order.d['outcome'] == 'true'
                 ok = kind == ('slot' if newer else 'zero')
@@ -495,28 +515,31 @@ def D2_publish_writes(ctx):
             if kind == 'Updated' and resets:
                 bad.append((p, 'Updated: publishes a StorageReset (masks storage that in-order execution keeps)'))
             # code_changed decision
-            def truth(callee_pat, field=None):
+            def truth(callee_pat):
                 for a in rest:
-                    if a.kind != 'atom' or a.d['outcome'] not in ('true', 'false'):
-                        continue
-                    t = a.d['term']
-                    neg = False
-                    while t[0] == 'un' and t[1] == 'Not':
-                        t = t[2]
-                        neg = not neg
-                    if t[0] == 'call' and callee_matches(t[1], callee_pat) and (field is None or mentions_field(t[2][0], field)):
-                        return (a.d['outcome'] == 'true') != neg
+                    bf = bool_fact(a)
+                    if bf and bf[0][0] == 'call' and callee_matches(bf[0][1], callee_pat):
+                        return bf[1]
+                return None
+
+            def is_some(field):
+                """was `field` (an Option read straight from the post-state info) found Some on this path"""
+                for a in rest:
+                    of = option_fact(a)
+                    if of and of[0][0] == 'field' and of[0][2].endswith(field) and of[1] in ('Some', 'None'):
+                        return of[1] == 'Some'
                 return None
 
             def snap(kindname):
                 for a in rest:
-                    if a.kind == 'atom' and a.d['term'][0] == 'call' and callee_matches(a.d['term'][1], '::is_none_or') and a.d['outcome'] in ('true', 'false'):
-                        cl = [s for s in subterms(a.d['term']) if s[0] == 'closure']
+                    bf = bool_fact(a)
+                    if bf and bf[0][0] == 'call' and callee_matches(bf[0][1], '::is_none_or'):
+                        cl = [s for s in subterms(bf[0]) if s[0] == 'closure']
                         if cl and closure_kind(ctx, cl[0][1]) == kindname:
-                            return a.d['outcome'] == 'true'
+                            return bf[1]
                 return None
             empty_hash = truth('AccountInfo::is_empty_code_hash')
-            code_some = truth('Option::is_some', 'AccountInfo.code')
+            code_some = is_some('AccountInfo.code')
             code_snap = snap('code')
             basic_snap = snap('basic')
             if empty_hash is None:
@@ -572,6 +595,8 @@ def D2_publish_writes(ctx):
                 if not (v[0] == 'agg' and v[2] == 'Storage' and mentions_field(v, 'EvmStorageSlot.present_value')):
                     bad.append((p, 'Storage value is not slot.present_value'))
     ctx.count('D2.account-kinds', len(seen))
+    if os.environ.get('VERIF_DEBUG') == 'D2' and bad:
+        print(pretty_path(bad[0][0]), '\n', bad[0][1])
     ctx.ob('D2', f, 'publication-table', set(seen) >= {'Unchanged', 'Deleted', 'Created', 'Updated'} and not bad,
            '; '.join(sorted(set(w for _, w in bad))[:4]) + f' kinds={dict(seen)}', site=f.loc(f.b['lo']),
            what='Unchanged ⇒ nothing; Deleted ⇒ StorageReset (+Basic(None) unless beneficiary); Created ⇒ StorageReset + account; Updated ⇒ no reset; Code published ⇔ has code ∧ code present ∧ (no snapshot ∨ snapshot hash ≠ new hash); Basic published when code/nonce/balance changed; every changed slot published with its present value; estimate flag forwarded')
